@@ -908,11 +908,16 @@ impl Mp4TrackWriter {
             // mp4a.esds.es_desc.dec_config.max_bitrate
             // mp4a.esds.es_desc.dec_config.avg_bitrate
         }
-        if let Ok(stco) = StcoBox::try_from(self.trak.mdia.minf.stbl.co64.as_ref().unwrap()) {
-            self.trak.mdia.minf.stbl.stco = Some(stco);
-            self.trak.mdia.minf.stbl.co64 = None;
+        // Convert co64 to stco in the returned copy only: the writer keeps its
+        // co64 table, which write_sample and write_end rely on being present.
+        let mut trak = self.trak.clone();
+        if let Some(ref co64) = trak.mdia.minf.stbl.co64 {
+            if let Ok(stco) = StcoBox::try_from(co64) {
+                trak.mdia.minf.stbl.stco = Some(stco);
+                trak.mdia.minf.stbl.co64 = None;
+            }
         }
 
-        Ok(self.trak.clone())
+        Ok(trak)
     }
 }
